@@ -56,6 +56,7 @@ class Ctx:
         self.known_hits = {}        # id -> example
         self.notes = {}
         self.corr_scopes = {}
+        self.dist = {}              # scope -> input / result class counts
         self.harness_ok = True
         self.build_error = None
         self.proof = None
@@ -72,6 +73,7 @@ class Ctx:
         self.evaluations += len(lines)
         sc = self.corr_scopes.setdefault(scope, {"cases": 0, "disagreements": 0})
         sc["cases"] += len(lines)
+        vlib.account(self.dist, scope, lines, mi)
         for l, a, b in zip(lines, mm, mi):
             if a != b:
                 sc["disagreements"] += 1
@@ -186,6 +188,9 @@ def main():
         vlib.build_harness(); vlib.build_coq(); vlib.build_driver()
         sys.exit(mod.replay(json.load(open(a.replay))))
     ctx = Ctx(a.pid, a.tier, seed)
+    # a change that makes many cases slow must not make the check run for hours: past the deadline
+    # no further case is started (remaining cases come back as SKIPPED, which no oracle accepts)
+    vlib.DEADLINE = time.time() + (1500 if a.tier == "quick" else 5400)
     # 1. harness against /repo's working tree
     try:
         ctx.notes["cargo_build_s"] = round(vlib.build_harness(), 1)
@@ -235,6 +240,7 @@ def main():
         "rule": getattr(mod, "RULE", ""),
         "samples": ctx.samples[:12],
         "correspondence": ctx.corr_scopes,
+        "input_distribution": vlib.dist_summary(ctx.dist),
         "known_findings_hit": sorted(ctx.known_hits),
         "notes": ctx.notes,
         "coqchk": {k: proof.get(k) for k in ("coqchk_exit", "coqchk_s", "coqchk_axioms") if k in proof},
